@@ -763,6 +763,9 @@ func ruleSafeHandleBuiltOnlyFromSafe(p *Program, r *Report) {
 						caller = caller.Parent()
 					}
 					if ok, who := onlyFromSafe(caller, depth+1, seen); !ok {
+						if depth == 0 {
+							who = FnName(caller) // name the nearest caller that is not part of the safe assembly
+						}
 						return false, who
 					}
 				}
